@@ -21,7 +21,7 @@ from .core import Relation, err_kind
 
 PROP = "C03"
 CLAIMED = True
-COQ_MODULES = ["C03_Check", "C03_Proofs"]
+COQ_MODULES = ["C03_Check", "C03_Proofs", "C03_SimCheck"]
 PROPERTY_MODULE = "C03_Property"
 ALLOWED_AXIOMS = []
 RULE = (
@@ -702,7 +702,239 @@ class Assign(Relation):
         return "assign searchsorted/diff/repeat differs from first block whose end >= position"
 
 
-RELATIONS = [Vcf(), Assign()]
+
+# ---- end to end: simulate_gt -> write_breakpoints -> output_vcf -------------------------------
+
+
+def gen_sim_case(rng, tier="quick"):
+    """A panel / sample-info / flag configuration as for the vcf relation, with genetic maps instead of
+    hand-built breakpoints: one map file per requested chromosome whose markers lie on the grid of the
+    variant positions and whose LAST marker lies - independently for every chromosome, hence for the
+    first, a middle and the last one - well below, exactly on, or above the chromosome's variants."""
+    while True:
+        c = gen_case(rng, tier)
+        if c["kind"] == "wellformed":
+            break
+    r = rng.random
+    grid = [5, 10, 11, 20, 21, 30, 40, 41, 50, 60, 99, 100, 101, 150, 200]
+    maps, past = {}, []
+    for ch in c["chroms"]:
+        pos = sorted(v[2] for v in c["ref"]["vars"] if v[1] == ch)
+        mode = r()
+        if mode < 0.6:
+            top = pos[-1] - 1 if r() < 0.5 else pos[0] - 1        # below the last / below every variant
+            cand = [g for g in [1, 2, 3, 4] + grid if g <= top] or [1, 2]
+        elif mode < 0.8:
+            cand = [g for g in [1, 2, 3, 4] + grid if g < pos[-1]] + [pos[-1]]    # last marker on the last variant
+        else:
+            cand = [1, 2, 3, 4] + grid + [250, 1000]
+        nm = int(rng.integers(1, 6))
+        ms = sorted(set(int(x) for x in rng.choice(cand, size=min(nm, len(cand)), replace=False)))
+        if mode >= 0.6 and mode < 0.8 and pos[-1] not in ms:
+            ms = sorted(set(ms + [pos[-1]]))
+        cm, rows = 0.0, []
+        for bp in ms:
+            rows.append([chrom_str(ch), round(cm, 6), bp])
+            cm += float(rng.choice([20, 80, 300]))
+        maps[chrom_str(ch)] = rows
+        past.append(pos[-1] > ms[-1])
+    K = c["npop"] - 1
+    G = int(rng.integers(1, 4))
+    lines, g = [], 0
+    for gi in range(G):
+        g += int(rng.integers(1, 3))
+        adm = 0.0 if gi == 0 else float(rng.choice([0, 0.5, 1]))
+        rest = 1 - adm
+        w = rng.dirichlet(np.ones(K))
+        if K > 1 and r() < 0.3:
+            w[int(rng.integers(0, K))] = 0
+            w = w / w.sum() if w.sum() > 0 else np.ones(K) / K
+        fr = [round(rest * float(x), 4) for x in w]
+        fr[-1] = round(rest - sum(fr[:-1]), 4)
+        if fr[-1] < 0:
+            fr = [rest / K] * K
+        lines.append([g, adm] + fr)
+    nsamp = len(c["bps"]) // 2
+    c.update({"maps": maps, "model": lines, "nsamp": nsamp, "popsize": int(max(2 * nsamp, rng.choice([2, 4, 6, 10]))),
+              "simseed": int(rng.integers(1, 2**31 - 1)), "bps": [], "kind": "simulated", "past": past})
+    return c
+
+
+def parse_bp_file(path, pops):
+    haps = []
+    with open(path) as f:
+        for line in f:
+            t = line.rstrip("\n").split("\t")
+            if len(t) == 1:
+                haps.append([])
+            else:
+                haps[-1].append([pops.index(t[0]), 23 if t[1] == "X" else int(t[1]), int(t[2]), 0])
+    return haps
+
+
+def run_sim_vcf(inp):
+    """simulate_gt -> write_breakpoints -> output_vcf as the simgenotype command chains them."""
+    from haptools.logging import getLogger
+    import haptools.sim_genotype as sg
+
+    d = tempfile.mkdtemp(prefix="hv_c03s_")
+    rec = None
+    try:
+        panel, recs = write_panel(inp, d)
+        pops = pops_of(inp)
+        mapdir = os.path.join(d, "maps")
+        os.mkdir(mapdir)
+        for c, rows in inp["maps"].items():
+            with open(os.path.join(mapdir, f"g.chr{c}.map"), "w") as f:
+                for row in rows:
+                    f.write(f"{row[0]}\t.\t{row[1]:.6f}\t{row[2]}\n")
+        model = os.path.join(d, "model.dat")
+        with open(model, "w") as f:
+            f.write(f"{inp['nsamp']}\t" + "\t".join(pops) + "\n")
+            for ln in inp["model"]:
+                f.write("\t".join(str(x) for x in ln) + "\n")
+        info = os.path.join(d, "info.tab")
+        with open(info, "w") as f:
+            for s, p in inp["info"]:
+                f.write(f"{info_name(s)}\t{pops[p] if p < len(pops) else 'OTHER%d' % p}\n")
+        out = os.path.join(d, "out." + inp["out"])
+        region = None
+        if inp.get("region"):
+            g = inp["region"]
+            region = {"chr": chrom_str(g[0]), "start": int(g[1]), "end": int(g[2])}
+        log = getLogger("hv", "CRITICAL")
+        chroms = [chrom_str(c) for c in inp["chroms"]]
+        try:
+            ns, pop_dict, gen = sg.simulate_gt(model, mapdir, chroms, region, inp["popsize"], log, inp["simseed"])
+            bkp = sg.write_breakpoints(ns, pop_dict, gen, os.path.join(d, "out"), log)
+            bps = parse_bp_file(os.path.join(d, "out.bp"), pops)
+        except Exception as e:  # noqa
+            return {"failed": {"err": err_kind(e), "cls": type(e).__name__, "msg": str(e)[:200]}, "stage": "simulate"}
+        rec = DrawRecorder()
+        try:
+            try:
+                sg.output_vcf(bkp, chroms, model, panel, info, region,
+                              bool(inp["pop_field"]), bool(inp["sample_field"]), bool(inp["norep"]), out, log)
+                err = None
+            except Exception as e:  # noqa
+                err = {"err": err_kind(e), "cls": type(e).__name__, "msg": str(e)[:200]}
+        finally:
+            rec.close()
+        smap = {f"R{i}": i for i in range(inp["ref"]["nref"])}
+        draws = {
+            "choice": rec.choice,
+            "strand": rec.strand,
+            "shuffle": [[smap.get(x, -int(x[6:]) if x.startswith("absent") else -99) for x in l] for l in rec.shuffle],
+            "ok": rec.ok,
+        }
+        if err is not None:
+            return {"failed": err, "draws": draws, "bps": bps}
+        o = read_output(out, dict(inp, bps=bps), recs, pops)
+        return {"out": o, "draws": draws, "bps": bps}
+    finally:
+        if rec is not None:
+            rec.close()
+        shutil.rmtree(d, ignore_errors=True)
+
+
+class Sim(Vcf):
+    """The whole command: the breakpoints come from simulate_gt / write_breakpoints on generated genetic maps
+    (read back from the .bp file written), the genotypes from output_vcf on those breakpoints.  holds adds to the
+    vcf relation's checker the clause of the property that only simulated breakpoints give a meaning to:
+    a variant past the chromosome's last block end belongs to the chromosome's LAST block."""
+
+    name = "sim"
+    coq_module = "C03_SimCheck"
+    coq_check = "check_sim"
+    coq_case_type = "C03_Check.ocase"
+    coq_model = "model_sim"
+    coq_imports = ["Tracts", "C01_Model", "C14_Model", "C03_Model", "C03_Check"]
+    budget = {"quick": 150, "thorough": 3000}
+    # (_prepare_coords, simulate_gt and write_breakpoints belong here too; they are C02's anchors in anchors.json,
+    # which only the integrator edits - an anchor missing there would escalate every run)
+    anchors = Vcf.anchors
+
+    def generate(self, rng, n, tier):
+        return [gen_sim_case(rng, tier) for _ in range(n)]
+
+    def run_impl(self, inp):
+        return run_sim_vcf(inp)
+
+    def encode(self, inp, obs):
+        if isinstance(obs, dict) and "bps" in obs:
+            inp = dict(inp, bps=obs["bps"])
+        return super().encode(inp, obs)
+
+    @staticmethod
+    def _past(inp):
+        """per requested chromosome: does a reference variant lie past the last map coordinate"""
+        out = []
+        for c in inp["chroms"]:
+            pos = [v[2] for v in inp["ref"]["vars"] if v[1] == c]
+            ms = [row[2] for row in inp["maps"].get(chrom_str(c), [])]
+            out.append(bool(pos and ms and max(pos) > ms[-1]))
+        return out
+
+    def nontrivial(self, inp, obs):
+        return isinstance(obs, dict) and "out" in obs and (any(self._past(inp)) or super().nontrivial(dict(inp, bps=obs["bps"]), obs))
+
+    def classes(self, inp, obs):
+        full = dict(inp, bps=obs["bps"]) if isinstance(obs, dict) and "bps" in obs else inp
+        out = [x for x in super().classes(full, obs) if x != "simulated"]
+        past = self._past(inp)
+        n = len(past)
+        out.append(f"chroms={n}")
+        for i, p in enumerate(past):
+            if p:
+                where = "only" if n == 1 else "first" if i == 0 else "last" if i == n - 1 else "middle"
+                out.append(f"variant-past-last-map-coordinate-on-{where}-chromosome")
+        if isinstance(obs, dict) and obs.get("stage") == "simulate":
+            out.append("simulation-failed")
+        return out
+
+    def shrink(self, inp):
+        if len(inp["model"]) > 1:
+            yield dict(inp, model=inp["model"][:-1])
+        if inp["popsize"] > 2 * inp["nsamp"]:
+            yield dict(inp, popsize=2 * inp["nsamp"])
+        if len(inp["chroms"]) > 1 and not inp["region"]:
+            for j in range(len(inp["chroms"])):
+                ch = inp["chroms"][:j] + inp["chroms"][j + 1:]
+                yield dict(inp, chroms=ch, maps={chrom_str(c): inp["maps"][chrom_str(c)] for c in ch})
+        for c, rows in inp["maps"].items():
+            if len(rows) > 1:
+                for j in range(len(rows)):
+                    yield dict(inp, maps=dict(inp["maps"], **{c: rows[:j] + rows[j + 1:]}))
+        ref = inp["ref"]
+        for vi in range(len(ref["vars"])):
+            if sum(1 for v in ref["vars"] if v[1] == ref["vars"][vi][1]) > 1:
+                yield dict(inp, ref=dict(ref, vars=ref["vars"][:vi] + ref["vars"][vi + 1:],
+                                         nalleles=ref["nalleles"][:vi] + ref["nalleles"][vi + 1:],
+                                         data=[row[:vi] + row[vi + 1:] for row in ref["data"]]))
+        if inp["norep"]:
+            yield dict(inp, norep=False)
+        if inp["out"] != "vcf":
+            yield dict(inp, out="vcf")
+        if ref["fmt"] != "vcf.gz":
+            yield dict(inp, ref=dict(ref, fmt="vcf.gz"))
+        for s in (1, 2, 3):
+            yield dict(inp, simseed=s)
+
+    def mutate(self, inp, rng):
+        for _ in range(4):
+            yield dict(inp, simseed=int(rng.integers(1, 2**31 - 1)))
+        for f in ("pop_field", "sample_field"):
+            yield dict(inp, **{f: not inp[f]})
+
+    def signature(self, inp, obs):
+        if not isinstance(obs, dict) or "out" not in obs:
+            return "sim simgenotype pipeline did not complete / not observed"
+        past = any(self._past(inp))
+        return ("sim " + super().signature(dict(inp, bps=obs["bps"]), obs)[4:]
+                + (" (reference variants past the last map coordinate)" if past else ""))
+
+
+RELATIONS = [Vcf(), Assign(), Sim()]
 
 LEVEL_TEXT = (
     "Coq theorems over all variant-position lists, tract layouts, panels and draw streams (no size bound) about a Gallina "
